@@ -91,6 +91,7 @@ def main(argv=None):
         for s in shards:
             s.setdefault('tier', args.tier)
             s.setdefault('seed', args.seed)
+            s.setdefault('provision', getattr(mod, 'PROVISION', True))
         timeout = getattr(mod, 'SHARD_TIMEOUT', {}).get(args.tier, 600 if args.tier == 'quick' else 7200)
         results, problems = [], []
         with concurrent.futures.ThreadPoolExecutor(max(1, min(args.jobs, len(shards)))) as ex:
